@@ -30,7 +30,11 @@ def load (filter : Filter) (w : World) : ErrClass × World :=
   | .encodeFails => (.other, w)
   | .prog p =>
     -- no_new_privs first, on a thread the goroutine cannot leave until the filter is installed
-    let w1 := if filter.noNewPrivs = true then (sysPrctl PR_SET_NO_NEW_PRIVS 1 0 0 0 (lockOSThread w)).2.2 else w
+    let r0 := sysPrctl PR_SET_NO_NEW_PRIVS 1 0 0 0 (lockOSThread w)
+    if filter.noNewPrivs = true ∧ r0.2.1 ≠ 0 then
+      (.errno r0.2.1, unlockOSThread r0.2.2)      -- the bit cannot be set: give up before touching seccomp
+    else
+    let w1 := if filter.noNewPrivs = true then r0.2.2 else w
     let r := sysSeccomp SECCOMP_SET_MODE_FILTER filter.flag (mkFprog (.prog p)) w1
     let w3 := if filter.noNewPrivs = true then unlockOSThread r.2.2 else r.2.2
     if r.2.1 ≠ 0 then (.errno r.2.1, w3)          -- the kernel declined with an errno
